@@ -57,6 +57,8 @@ class WallBudget(BaseException):
 
 
 class wall_guard(object):
+    """Nestable real-time limit (SIGALRM / ITIMER_REAL) raising WallBudget in the main thread."""
+
     def __init__(self, seconds=30):
         self.seconds = seconds
 
@@ -65,14 +67,22 @@ class wall_guard(object):
 
     def __enter__(self):
         import signal
+        import time
+        self._t0 = time.time()
+        self._outer = signal.getitimer(signal.ITIMER_REAL)[0]
         self._old = signal.signal(signal.SIGALRM, self._fire)
-        signal.setitimer(signal.ITIMER_REAL, self.seconds)
+        limit = self.seconds if not self._outer else min(self.seconds, self._outer)
+        signal.setitimer(signal.ITIMER_REAL, limit)
         return self
 
     def __exit__(self, *exc):
         import signal
+        import time
         signal.setitimer(signal.ITIMER_REAL, 0)
         signal.signal(signal.SIGALRM, self._old)
+        if self._outer:
+            remaining = self._outer - (time.time() - self._t0)
+            signal.setitimer(signal.ITIMER_REAL, max(remaining, 0.01))
         return False
 
 
@@ -279,6 +289,9 @@ def install_scheduler(s):
 _VAR_TOKEN = re.compile(r"(?<![A-Za-z0-9_'])(_[A-Za-z0-9_]*|[A-Z][A-Za-z0-9_]*)(?![A-Za-z0-9_'(])")
 
 
+_FLOAT_TOKEN = re.compile(r"(?<![A-Za-z0-9_.])\d+\.\d{8,}(?:e-?\d+)?(?![A-Za-z0-9_])")
+
+
 def canon_term(t, sort_lists):
     """Canonical string of a result term; with sort_lists the elements of every list are sorted.
     Variables of non-ground result terms (e.g. the placeholder of a failed non-ground query) are
@@ -290,6 +303,8 @@ def canon_term(t, sort_lists):
         ground = t.is_ground()
     except Exception:
         ground = True
+    if "." in s:
+        s = _FLOAT_TOKEN.sub(lambda m: ("%.9f" % float(m.group(0))).rstrip("0").rstrip("."), s)
     if not ground and "'" not in s and '"' not in s:
         names = {}
 
